@@ -33,9 +33,9 @@ def run_property(pid: str, tier: str, only=None, src=None, quiet=False) -> int:
                 selftest.run_for(pid, rep)
         return rep.finish()
     except AnalysisError as e:
-        print(f"ANALYSIS-ERROR property={pid} {e}")
-        rep.write_evidence(0, 0, error=str(e))
-        return 2
+        # a rule (or a floor) could not decide; definite violations found before that are still reported (exit 1)
+        rep.undecided.append(str(e))
+        return rep.finish()
     except Exception as e:  # a traceback must never masquerade as a violation
         traceback.print_exc()
         print(f"ANALYSIS-ERROR property={pid} internal error: {type(e).__name__}: {e}")
